@@ -279,7 +279,15 @@ func (b bin) Iter(yield func(string, Value) bool) {
 }
 
 func (b bin) Size() int {
-	return 3
+	// str is always present, min and max only if the bin is bounded, see Iter
+	n := 1
+	if b.IsMin {
+		n++
+	}
+	if b.IsMax {
+		n++
+	}
+	return n
 }
 
 func (b bin) String() string {
